@@ -355,7 +355,10 @@ class C07(Prop):
                 for f in ai_files(b.w, b.repos["r0"]):
                     if f.startswith("working_logs/old-") or not f.endswith(("checkpoints.jsonl", "INITIAL")):
                         continue
-                    for kind in CORRUPT_KINDS:
+                    # only damage that leaves the journal malformed: a journal that is cleanly lost
+                    # (deleted, emptied, cut at a record boundary) legitimately makes the next
+                    # hook-less AI checkpoint claim every uncommitted change
+                    for kind in ("truncate_tail", "garbage", "dir"):
                         faults.append({"family": "corrupt", "file": f, "kind": kind, "before_op": mid})
         if tier == "quick" and len(faults) > 80:
             faults = rng.sample(faults, 80)
